@@ -266,9 +266,11 @@ func (h c10HostApp) isBE() bool {
 
 type c10BudgetCase struct {
 	CapMilli, AllocMilli int64
-	AnnoKind             string // "", "resources", "cpus", "both", "bad"
+	AnnoKind             string // "", "resources", "cpus", "both", "bad", "memory-only"
 	AnnoResMilli         int64
 	AnnoCPUs             int
+	KubeMemResMi         int // memory the kubelet reserves (capacity - allocatable), Mi
+	AnnoMemMi            int // memory the annotation reserves, Mi; 0 = the annotation does not mention memory
 	Threshold            int64
 	Min                  *int64
 	NodeUsed             float64
@@ -306,7 +308,14 @@ func c10GenBudgetCase(t *rapid.T) c10BudgetCase {
 	default:
 		bc.AllocMilli = bc.CapMilli - int64(c10Min(int(bc.CapMilli), rapid.IntRange(0, 4000).Draw(t, "kubeletReservedSmall")))
 	}
-	bc.AnnoKind = rapid.SampledFrom([]string{"", "", "resources", "cpus", "both", "bad"}).Draw(t, "annoKind")
+	bc.AnnoKind = rapid.SampledFrom([]string{"", "", "resources", "resources", "cpus", "both", "bad", "memory-only"}).Draw(t, "annoKind")
+	// reservations are multi-resource lists; the two sources need not be ordered the same way in every resource
+	bc.KubeMemResMi = rapid.SampledFrom([]int{0, 512, 1024, 4096}).Draw(t, "kubeletReservedMemMi")
+	if bc.AnnoKind == "memory-only" {
+		bc.AnnoMemMi = rapid.SampledFrom([]int{256, 2048, 8192}).Draw(t, "annoMemMi")
+	} else if bc.AnnoKind != "" && bc.AnnoKind != "bad" {
+		bc.AnnoMemMi = rapid.SampledFrom([]int{0, 0, 256, 2048, 8192}).Draw(t, "annoMemMi")
+	}
 	if bc.AnnoKind == "resources" || bc.AnnoKind == "both" {
 		bc.AnnoResMilli = int64(rapid.OneOf(rapid.IntRange(0, int(bc.CapMilli/8)), rapid.IntRange(0, int(bc.CapMilli))).Draw(t, "annoResMilli"))
 	}
@@ -374,14 +383,22 @@ func c10GenBudgetCase(t *rapid.T) c10BudgetCase {
 func (bc c10BudgetCase) build() (*corev1.Node, map[string]float64, []*statesinformer.PodMeta, []slov1alpha1.HostApplicationSpec, map[string]float64) {
 	node := &corev1.Node{ObjectMeta: metav1.ObjectMeta{Name: "n"}}
 	node.Status.Capacity = corev1.ResourceList{corev1.ResourceCPU: *resource.NewMilliQuantity(bc.CapMilli, resource.DecimalSI), corev1.ResourceMemory: resource.MustParse("64Gi")}
-	node.Status.Allocatable = corev1.ResourceList{corev1.ResourceCPU: *resource.NewMilliQuantity(bc.AllocMilli, resource.DecimalSI), corev1.ResourceMemory: resource.MustParse("64Gi")}
+	node.Status.Allocatable = corev1.ResourceList{corev1.ResourceCPU: *resource.NewMilliQuantity(bc.AllocMilli, resource.DecimalSI),
+		corev1.ResourceMemory: *resource.NewQuantity((64*1024-int64(bc.KubeMemResMi))<<20, resource.BinarySI)}
+	mem, memOnly := "", ""
+	if bc.AnnoMemMi > 0 {
+		mem = fmt.Sprintf(`,"memory":"%dMi"`, bc.AnnoMemMi)
+		memOnly = fmt.Sprintf(`"resources":{"memory":"%dMi"},`, bc.AnnoMemMi)
+	}
 	switch bc.AnnoKind {
 	case "resources":
-		node.Annotations = map[string]string{apiext.AnnotationNodeReservation: fmt.Sprintf(`{"resources":{"cpu":"%dm"}}`, bc.AnnoResMilli)}
+		node.Annotations = map[string]string{apiext.AnnotationNodeReservation: fmt.Sprintf(`{"resources":{"cpu":"%dm"%s}}`, bc.AnnoResMilli, mem)}
 	case "cpus":
-		node.Annotations = map[string]string{apiext.AnnotationNodeReservation: fmt.Sprintf(`{"reservedCPUs":"0-%d"}`, bc.AnnoCPUs-1)}
+		node.Annotations = map[string]string{apiext.AnnotationNodeReservation: fmt.Sprintf(`{%s"reservedCPUs":"0-%d"}`, memOnly, bc.AnnoCPUs-1)}
 	case "both":
-		node.Annotations = map[string]string{apiext.AnnotationNodeReservation: fmt.Sprintf(`{"resources":{"cpu":"%dm"},"reservedCPUs":"0-%d"}`, bc.AnnoResMilli, bc.AnnoCPUs-1)}
+		node.Annotations = map[string]string{apiext.AnnotationNodeReservation: fmt.Sprintf(`{"resources":{"cpu":"%dm"%s},"reservedCPUs":"0-%d"}`, bc.AnnoResMilli, mem, bc.AnnoCPUs-1)}
+	case "memory-only":
+		node.Annotations = map[string]string{apiext.AnnotationNodeReservation: fmt.Sprintf(`{"resources":{"memory":"%dMi"}}`, bc.AnnoMemMi)}
 	case "bad":
 		node.Annotations = map[string]string{apiext.AnnotationNodeReservation: `{"resources":`}
 	}
@@ -502,8 +519,8 @@ func (bc c10BudgetCase) String() string {
 	if bc.Min != nil {
 		min = fmt.Sprint(*bc.Min)
 	}
-	return fmt.Sprintf("cap=%dm alloc=%dm anno=%s(res=%dm cpus=%d) thr=%d%% min=%s nodeUsed=%v pods=%+v hostApps=%+v",
-		bc.CapMilli, bc.AllocMilli, bc.AnnoKind, bc.AnnoResMilli, bc.AnnoCPUs, bc.Threshold, min, bc.NodeUsed, bc.Pods, bc.Apps)
+	return fmt.Sprintf("cap=%dm alloc=%dm kubeletReservedMem=%dMi anno=%s(res=%dm cpus=%d mem=%dMi) thr=%d%% min=%s nodeUsed=%v pods=%+v hostApps=%+v",
+		bc.CapMilli, bc.AllocMilli, bc.KubeMemResMi, bc.AnnoKind, bc.AnnoResMilli, bc.AnnoCPUs, bc.AnnoMemMi, bc.Threshold, min, bc.NodeUsed, bc.Pods, bc.Apps)
 }
 
 func c10CallBudget(r *CPUSuppress, bc c10BudgetCase) (milli int64, panicked any) {
@@ -562,6 +579,23 @@ func TestVerifC10Budget(t *testing.T) {
 		c.ClassIf(nAppNonBE > 0, "non-be-host-app")
 		c.ClassIf(bc.CapMilli%1000 != 0, "fractional-capacity")
 		c.Class("reservation-anno:" + bc.AnnoKind)
+		{
+			kubeCPU := bc.CapMilli - bc.AllocMilli
+			annoCPU, hasAnno := int64(0), true
+			switch bc.AnnoKind {
+			case "resources":
+				annoCPU = bc.AnnoResMilli
+			case "cpus", "both":
+				annoCPU = int64(bc.AnnoCPUs) * 1000
+			case "memory-only":
+			default:
+				hasAnno = false
+			}
+			c.ClassIf(hasAnno && kubeCPU > 0, "reservation-expressed-both-ways")
+			c.ClassIf(hasAnno && annoCPU < kubeCPU && bc.AnnoMemMi > bc.KubeMemResMi, "reservation-lists-incomparable(anno: less cpu, more memory)")
+			c.ClassIf(hasAnno && annoCPU > kubeCPU && bc.AnnoMemMi < bc.KubeMemResMi, "reservation-lists-incomparable(anno: more cpu, less memory)")
+			c.ClassIf(hasAnno && annoCPU < kubeCPU && bc.AnnoMemMi > bc.KubeMemResMi && sysAtReserved, "incomparable-reservation-floors-system-usage")
+		}
 		if nNonBE > 0 && nBE > 0 && !floored {
 			c.NonTrivial(bc.String())
 		}
@@ -1150,7 +1184,7 @@ func (s c10Scenario) buildInformer() *c10Informer {
 	if s.NoTopo {
 		return inf
 	}
-	topo := &topov1alpha1.NodeResourceTopology{ObjectMeta: metav1.ObjectMeta{Name: "n"}}
+	topo := &topov1alpha1.NodeResourceTopology{ObjectMeta: metav1.ObjectMeta{Name: "n", UID: "nrt-uid", Generation: 1}}
 	anno := map[string]string{}
 	if s.HasReserved {
 		nr := apiext.NodeReservation{ReservedCPUs: c10FmtSet(s.Reserved)}
@@ -1245,16 +1279,100 @@ type c10SetEnv struct {
 	exists, lse, reserved, sysExcl map[int]bool
 }
 
-func c10NewSetEnv(s c10Scenario, beRoot string, exec *c10Exec) *c10SetEnv {
-	env := &c10SetEnv{s: s, fs: c10CgFS{v2: s.V2}, exec: exec, beRoot: beRoot}
-	env.ids = s.Topo.ids()
-	env.exists = c10SetOf(env.ids)
+// setProtection (re)derives the oracle's protected / eligible sets from the scenario (its pods and node-level annotations).
+func (env *c10SetEnv) setProtection(s c10Scenario) {
+	env.s = s
 	env.lse, env.reserved, env.sysExcl = s.protected()
+	env.eligible = nil
 	for _, id := range env.ids {
 		if !env.lse[id] && !env.reserved[id] && !env.sysExcl[id] {
 			env.eligible = append(env.eligible, id)
 		}
 	}
+}
+
+// c10MutateNodeProtection changes the reserved-CPU / system-QoS annotations of the node topology the way an operator does at
+// run time (an annotation-only update: same object UID, same metadata.generation). Exclusive owners stay pairwise disjoint.
+// Returns a description, "" when nothing could be changed.
+func c10MutateNodeProtection(t *rapid.T, s *c10Scenario, ids []int) string {
+	owned := map[int]bool{}
+	for _, p := range s.Pods {
+		if p.QoS == "LSE" || p.QoS == "LSR" {
+			for _, id := range p.CPUs {
+				owned[id] = true
+			}
+		}
+	}
+	for _, id := range s.Reserved {
+		owned[id] = true
+	}
+	for _, id := range s.System {
+		owned[id] = true
+	}
+	var unowned []int
+	for _, id := range ids {
+		if !owned[id] {
+			unowned = append(unowned, id)
+		}
+	}
+	var kinds []string
+	if len(unowned) > 0 {
+		kinds = append(kinds, "reserve-more", "reserve-more", "system-exclusive-more")
+	}
+	if len(s.Reserved) > 0 {
+		kinds = append(kinds, "reserve-less")
+	}
+	if len(s.System) > 0 {
+		kinds = append(kinds, "system-less", "system-toggle-exclusive")
+	}
+	if len(kinds) == 0 {
+		return ""
+	}
+	take := func(from []int, lbl string) (picked, rest []int) {
+		k := rapid.IntRange(1, c10Min(3, len(from))).Draw(t, lbl+"Count")
+		off := rapid.IntRange(0, len(from)-k).Draw(t, lbl+"Offset")
+		picked = append(picked, from[off:off+k]...)
+		rest = append(append(rest, from[:off]...), from[off+k:]...)
+		return
+	}
+	kind := rapid.SampledFrom(kinds).Draw(t, "annotationChange")
+	switch kind {
+	case "reserve-more":
+		picked, _ := take(unowned, "reserve")
+		s.HasReserved = true
+		s.Reserved = append(append([]int(nil), s.Reserved...), picked...)
+		return fmt.Sprintf("node-reservation annotation now also reserves cpus %s", c10FmtSet(picked))
+	case "reserve-less":
+		picked, rest := take(s.Reserved, "unreserve")
+		s.Reserved = rest
+		return fmt.Sprintf("node-reservation annotation no longer reserves cpus %s", c10FmtSet(picked))
+	case "system-exclusive-more":
+		picked, _ := take(unowned, "system")
+		s.System = append(append([]int(nil), s.System...), picked...)
+		if !s.HasSystem || s.SystemExcl == "false" || s.SystemExcl == "" {
+			s.SystemExcl = "true"
+		}
+		s.HasSystem = true
+		return fmt.Sprintf("system-qos annotation (exclusive) now also holds cpus %s", c10FmtSet(picked))
+	case "system-less":
+		picked, rest := take(s.System, "unsystem")
+		s.System = rest
+		return fmt.Sprintf("system-qos annotation no longer holds cpus %s", c10FmtSet(picked))
+	default:
+		if s.SystemExcl == "false" {
+			s.SystemExcl = "true"
+		} else {
+			s.SystemExcl = "false"
+		}
+		return fmt.Sprintf("system-qos annotation cpusetExclusive=%s (cpus %s)", s.SystemExcl, c10FmtSet(s.System))
+	}
+}
+
+func c10NewSetEnv(s c10Scenario, beRoot string, exec *c10Exec) *c10SetEnv {
+	env := &c10SetEnv{s: s, fs: c10CgFS{v2: s.V2}, exec: exec, beRoot: beRoot}
+	env.ids = s.Topo.ids()
+	env.exists = c10SetOf(env.ids)
+	env.setProtection(s)
 	env.allDirs = append(env.allDirs, beRoot)
 	for _, d := range s.BEDirs {
 		env.allDirs = append(env.allDirs, filepath.Join(beRoot, d))
@@ -2005,12 +2123,30 @@ func TestVerifC10SuppressHistory(t *testing.T) {
 		nonQuotaSinceQuota := false
 		switchBack := false
 		crashed, everCrashed := false, false
+		cpusetRoundOnThisAgent := false // the running agent instance has already done a cpuset-mode round
 		for round := 0; round < nRounds; round++ {
+			// an operator edits the reserved-CPU / system-QoS annotations of the node topology between two rounds
+			annotationsChanged := false
+			if round > 0 && !crashed && rapid.IntRange(0, 2).Draw(t, "changeTopologyAnnotations") == 0 {
+				if what := c10MutateNodeProtection(t, &s, env.ids); what != "" {
+					inf.topo = s.buildInformer().topo // a new object from the informer: same UID, same generation, new annotations
+					env.setProtection(s)
+					e = len(env.eligible)
+					annotationsChanged = true
+					c.Class("topology-annotations-changed-between-rounds")
+					hist = append(hist, "topology annotations updated: "+what)
+				}
+			}
 			var policy string
 			l := prevLoad
 			switch {
 			case crashed: // the restarted agent repeats the interrupted cpuset round with the same inputs
 				policy = "cpuset"
+			case annotationsChanged && rapid.Bool().Draw(t, "cpusetRoundAfterChange"):
+				policy = "cpuset"
+				if rapid.Bool().Draw(t, "newLoadAfterChange") {
+					l = c10GenLoad(t, n)
+				}
 			default:
 				policy = rapid.SampledFrom([]string{"cfsQuota", "cfsQuota", "cfsQuota", "cpuset", "cpuset", "disabled", "disabled", "be-cpu-manager"}).Draw(t, "policy")
 				if round == 0 || rapid.IntRange(0, 2).Draw(t, "sameLoadAsPreviousRound") == 0 {
@@ -2062,6 +2198,11 @@ func TestVerifC10SuppressHistory(t *testing.T) {
 			}
 			policies = append(policies, policy)
 
+			if policy == "cpuset" {
+				c.ClassIf(annotationsChanged, "cpuset-round-right-after-annotation-change")
+				c.ClassIf(annotationsChanged && cpusetRoundOnThisAgent, "cpuset-rounds-before-and-after-annotation-change")
+				cpusetRoundOnThisAgent = true
+			}
 			exec.attempts = map[string]int{}
 			var pnc any
 			func() {
@@ -2179,6 +2320,7 @@ func TestVerifC10SuppressHistory(t *testing.T) {
 					c.Class("crash-recovery-state")
 					hist = append(hist, "agent crashed and restarted; BE tree left at "+env.treeString())
 					crashed, everCrashed = true, true
+					cpusetRoundOnThisAgent = false
 					startAgent()
 					if round == nRounds-1 {
 						nRounds++
